@@ -106,10 +106,10 @@ Proof. intros Hn Ht. rewrite cq_refines_at by assumption. apply sp_run_no_fuel. 
 (* wire-level statement: the two runners agree on every input line *)
 Theorem run_eq_sp_run input : run input = sp_run input.
 Proof.
-  unfold run, sp_run. destruct input as [|n [|t [|ts r]]]; try reflexivity.
-  destruct (n =? 0) eqn:En; [reflexivity|]. destruct (t =? 0) eqn:Et; [reflexivity|]. cbn [orb].
+  unfold run, sp_run. destruct input as [|n [|t [|ts [|u0 r]]]]; try reflexivity.
+  cbn zeta. destruct (n =? 0) eqn:En; [reflexivity|]. destruct (t =? 0) eqn:Et; [reflexivity|]. cbn [orb].
   apply N.eqb_neq in En, Et. destruct (ts =? 0) eqn:Es.
-  - apply N.eqb_eq in Es. subst ts. rewrite cq_refines by assumption. reflexivity.
+  - apply N.eqb_eq in Es. subst ts. rewrite cq_refines by assumption. rewrite N.mul_0_l. reflexivity.
   - rewrite cq_refines_at by assumption. reflexivity.
 Qed.
 
